@@ -1,6 +1,6 @@
 """Shared driver for C01 / C06 (and the Conn-level part of C07): Conn.tla model pass, free-running
 executions of a real connection, TLC evaluation of the property invariants on the real traces."""
-import json, os, re, glob, concurrent.futures as cf
+import shutil, json, os, re, glob, concurrent.futures as cf
 import vf
 
 KINDS = {
@@ -158,6 +158,15 @@ def run_conn(ctx, prop):
                           "(scenario kind %s, protocol %s), near %s" % (inv, kindconn.get("kind"), kindconn.get("proto"), json.dumps(at)),
                           dict(trace=[{k: x for k, x in e.items() if k not in ("dump", "bytes")} for e in evs]))
     if rejected:
+        # keep the first rejected execution for analysis (replays/ is scratch, not evidence)
+        try:
+            dd = os.path.join(vf.VERIF, "replays", "drift")
+            os.makedirs(dd, exist_ok=True)
+            keep = os.path.join(dd, "%s_seed%s_%s" % (prop, ctx.seed, os.path.basename(rejected[0][0])))
+            shutil.copy(rejected[0][0], keep)
+            shutil.copy(rejected[0][0].replace(".ndjson", ".conf.ndjson"), keep.replace(".ndjson", ".conf.ndjson"))
+        except OSError:
+            pass
         ctx.add_drift("%d of %d recorded executions are not behaviours of Conn.tla (first: %s line %d: %s); the property "
                       "invariants were still evaluated on them by the monitor" % (
                           len(rejected), len(rejected) + acc, os.path.basename(rejected[0][0]), rejected[0][1], json.dumps(rejected[0][2])))
